@@ -7,7 +7,7 @@ use crate::{
         qos_policy::{DestinationOrderQosPolicyKind, HistoryQosPolicyKind, OwnershipQosPolicyKind},
         sample_info::{InstanceStateKind, SampleInfo, SampleStateKind, ViewStateKind},
         status::SampleRejectedStatusKind,
-        time::{DurationKind, TIME_INVALID_NSEC, TIME_INVALID_SEC, Time},
+        time::{Duration, DurationKind, TIME_INVALID_NSEC, TIME_INVALID_SEC, Time},
     },
     transport::types::{ChangeKind, Guid},
 };
@@ -96,6 +96,11 @@ impl InstanceState {
 
     pub fn last_received_time_stamp(&self) -> Time {
         self.last_received_time_stamp
+    }
+
+    /// Starts the next deadline period after a missed deadline has been accounted for
+    pub fn start_next_deadline_period(&mut self, period: Duration) {
+        self.last_received_time_stamp += period;
     }
 }
 
